@@ -102,7 +102,11 @@ def traverse(
     """
     if len(route_estimate) == 0:
         return None, RouteTraversal()
-    elif TupleOps.head(route_estimate).start == TupleOps.last(route_estimate).end:
+    elif all(link.start == link.end for link in route_estimate):
+        # nothing to drive: every link of the route begins and ends in the same place. (a route that merely
+        # ENDS in the cell where it begins -- round the block to the other side of the street -- has to be
+        # driven like any other; so has the rest of a route whose last cell the vehicle happens to cross
+        # earlier, on the opposite direction of the same street)
         return None, RouteTraversal()
     else:
         # function that steps through the route
